@@ -304,4 +304,35 @@ SkyRowsIndependent(ivar, flags, ngrow, tbl) ==
 SkyOnlyZeroes(ivar, flags, ngrow, tbl) ==
   \A r \in Idx(ivar) : \A p \in Idx(ivar[r]) :
      SkyMask(ivar, flags, ngrow, tbl)[r][p] \in {0, ivar[r][p]}
+
+(***************************************************************************)
+(* 6. The outcome depends on the VALUES (and logical shape) of the         *)
+(* arguments only - not on memory layout (C / Fortran order, strides),     *)
+(* writability or byte order of the arrays that carry them.  Stated over a *)
+(* pair of observed calls of the same function on arguments holding the    *)
+(* same values: the two abstracted outcomes are equal.  (Sections 1-5      *)
+(* already say so implicitly: their operators take values only.)           *)
+(*                                                                         *)
+(* For djs_reject on rank >= 2 data the statement leaves the neighbourhood *)
+(* that `grow` uses open; what every reading shares (flat positions in C   *)
+(* order, shape as in section 2): growing rejects a superset of what       *)
+(* grow = 0 rejects, and strictly more when some rejected point is         *)
+(* interior (has neighbours on both sides along every axis) and has no     *)
+(* other rejected point next to it, all other points being eligible.       *)
+(***************************************************************************)
+LayoutIndependent(a, b) == a = b
+Interior(shape, p) == \A ax \in 1..Len(shape) : CoordOf(shape, p, ax) > 0 /\ CoordOf(shape, p, ax) < shape[ax] - 1
+Adjacent(shape, p, q) == \A ax \in 1..Len(shape) : Abs(CoordOf(shape, p, ax) - CoordOf(shape, q, ax)) <= 1
+StrictGrowthRequired(shape, g, rej0) ==
+  g > 0 /\ \E p \in rej0 : Interior(shape, p) /\ \A q \in rej0 \ {p} : ~Adjacent(shape, p, q)
+GrowSupersetOK(shape, g, rej0, rejg) ==
+  /\ rej0 \subseteq rejg
+  /\ g = 0 => rejg = rej0
+  /\ StrictGrowthRequired(shape, g, rej0) => rejg # rej0
+(* the 1-D specification of section 1 satisfies the shared law (checked by TLC on every case   *)
+(* without excluded points)                                                                     *)
+RejGrowSupersetLaw(c) ==
+  Excluded(c) = {} =>
+     /\ GrowSupersetOK(<<c.n>>, c.grow, RejectedMin([c EXCEPT !.grow = 0]), RejectedMin(c))
+     /\ GrowSupersetOK(<<c.n>>, c.grow, RejectedMax([c EXCEPT !.grow = 0]), RejectedMax(c))
 =============================================================================
